@@ -3,7 +3,7 @@ import re
 
 from framework import AnchorLost
 from lib_facts import place_str, fn_name, callee_matches
-from lib_flow import (strip_refs, expr_calls, expr_str, variant_facts, blocks_with, region_entries, first_entries, enumerate_paths,
+from lib_flow import (all_arrivals_visit, strip_refs, expr_calls, expr_str, variant_facts, blocks_with, region_entries, first_entries, enumerate_paths,
                       feasible_cfg, self_field_stores, is_inc_of)
 from lib_inter import deep_leaves, returned_exprs
 from lib_drops import live_drops, is_output_like
@@ -222,7 +222,7 @@ def r2_1(ctx, R, only_in=None):
                         for c in calls:
                             if c[1] in accs and c[2][-1] == i_e:
                                 slot_ok = True
-                    ok = i_ok and x_ok and slot_ok and d.dominates(x_e[1][3], rb) if x_ok else False
+                    ok = i_ok and x_ok and slot_ok and all_arrivals_visit(d, fl, rb, x_e[1][3]) if x_ok else False
                 ctx.ob("R2.1", d, "drain-returns-(popped i, this poll's x)#%d" % n, ok, d.loc(rb), expr_str(e))
         ctx.floor("R2.1", "drain-ready-returns", n, 1)
 
